@@ -312,3 +312,83 @@ func TestLongRunsEveryCachePolicy(t *testing.T) {
 	kit.Rec.Enumerated(total, nontrivial)
 	kit.Rec.LabelN("long-run-decrypts", total)
 }
+
+// TestZeroCreatedKeyRows: key rows stored under creation time 0 (a legacy import, a buggy writer)
+// and records whose parent meta says Created 0 - the value the SDK itself uses internally to mean
+// "the latest key". Repeated decrypts return the payload or an error.
+func TestZeroCreatedKeyRows(t *testing.T) {
+	fx := newFixture()
+	defer verifhook.RemoveClock()
+	var total int64
+	for _, backend := range []string{"", "memory"} {
+		for _, level := range []string{"IK", "SK", "both"} {
+			for _, cache := range []bool{true, false} {
+				st := kit.NewStore(&kit.CallLog{})
+				if backend != "" {
+					st.Backing = backing.New(backend)
+				}
+				g := fx.pool[2]
+				in := cloneDRR(g.drr)
+				for _, r := range fx.store.CopyRows() {
+					st.Insert("copy", r.ID, r.Created, r)
+				}
+				ik := fx.store.Get(g.drr.Key.ParentKeyMeta.ID, g.drr.Key.ParentKeyMeta.Created)
+				sk := fx.store.Get(ik.Rec.ParentKeyMeta.ID, ik.Rec.ParentKeyMeta.Created)
+				ik0 := &appencryption.EnvelopeKeyRecord{ID: ik.ID, Created: 0, EncryptedKey: append([]byte(nil), ik.Rec.EncryptedKey...), ParentKeyMeta: &appencryption.KeyMeta{ID: sk.ID, Created: sk.Created}}
+				if level != "IK" {
+					st.Insert("legacy", sk.ID, 0, &appencryption.EnvelopeKeyRecord{ID: sk.ID, Created: 0, EncryptedKey: append([]byte(nil), sk.Rec.EncryptedKey...)})
+					ik0.ParentKeyMeta.Created = 0
+				}
+				if level != "SK" {
+					st.Insert("legacy", ik.ID, 0, ik0)
+					in.Key.ParentKeyMeta.Created = 0
+				} else {
+					// an IK row at its real stamp whose parent meta says Created 0
+					st2 := kit.NewStore(&kit.CallLog{})
+					st2.Backing = st.Backing
+					_ = st2
+					ikp := *ik.Rec
+					ikp.ParentKeyMeta = &appencryption.KeyMeta{ID: sk.ID, Created: 0}
+					ikp.Created = ik.Created + 1
+					st.Insert("legacy", ik.ID, ik.Created+1, &ikp)
+					in.Key.ParentKeyMeta.Created = ik.Created + 1
+				}
+				f := newFactory(fx, st, cache)
+				s, err := f.GetSession(g.part)
+				if err != nil {
+					t.Fatalf("GetSession: %v", err)
+				}
+				for i := 0; i < 4; i++ {
+					out, derr, p := safeDecrypt(s, cloneDRR(in))
+					total++
+					what := fmt.Sprintf("decrypt #%d of a record whose key chain goes through rows stored under Created 0 (%s level, metastore %q, key caching %v)", i, level, backend, cache)
+					var msg string
+					switch {
+					case p != nil:
+						msg = fmt.Sprintf("%s: PANIC: %v", what, p)
+					case derr == nil && string(out) != string(g.payload):
+						msg = fmt.Sprintf("%s: returned %q, the payload is %q", what, trunc(out), trunc(g.payload))
+					}
+					if msg != "" {
+						kit.Rec.Violation(msg)
+						t.Fatalf("C07 violated: %s", msg)
+					}
+					// the partition's next write must not crash either
+					func() {
+						defer func() {
+							if p := recover(); p != nil {
+								kit.Rec.Violation(fmt.Sprint(p))
+								t.Fatalf("C07 violated: %s: the next encrypt PANIC: %v", what, p)
+							}
+						}()
+						_, _ = s.Encrypt(ctx, []byte("next"))
+					}()
+				}
+				func() { defer func() { _ = recover() }(); s.Close() }()
+				func() { defer func() { _ = recover() }(); f.Close() }()
+			}
+		}
+	}
+	kit.Rec.Enumerated(total, total)
+	kit.Rec.LabelN("zero-created-rows", total)
+}
